@@ -16,7 +16,7 @@
 EXTENDS Integers, Sequences, FiniteSets
 
 Elems(s) == {s[j] : j \in 1..Len(s)}
-NoDup(s) == \A a, b \in 1..Len(s) : a # b => s[a] # s[b]
+NoDup(s) == Cardinality(Elems(s)) = Len(s)
 
 Lost(reply, holds)     == holds \ Elems(reply)          \* satisfy the predicate, not returned
 Invented(reply, holds) == Elems(reply) \ holds          \* returned, do not satisfy it (or do not exist)
